@@ -302,6 +302,46 @@ fn check_engine_defaults(rep: &Report, name: &str, bytes: &[u8]) {
     }
 }
 
+/// The file decides, not its name: a path loaded once, then overwritten with another voice (same byte length, same
+/// modification time - what `cp -p`, `rsync -t` or two writes within one clock tick produce) and loaded again while the first
+/// engine is still alive, must yield the voice that is in the file now.  Through `Engine::load` and `load_htsvoice_file`.
+fn reload_part(rep: &Report) {
+    let base = GenCfg { gv: true, nstate: 2, ..GenCfg::default() };
+    let a = GenCfg { variant: 0, ..base.clone() }.bytes();
+    let b = GenCfg { variant: 2, ..base.clone() }.bytes();
+    rep.guard(a.len() == b.len() && a != b, "the two generated voices for the reload part do not have equal length");
+    let (va, vb) = (load_voice_bytes(&a).expect("generated voice"), load_voice_bytes(&b).expect("generated voice"));
+    let stamp = std::time::SystemTime::UNIX_EPOCH + std::time::Duration::from_secs(1_600_000_000);
+    let write = |p: &str, bytes: &[u8]| {
+        std::fs::write(p, bytes).expect("write voice");
+        let f = std::fs::File::options().write(true).open(p).expect("open voice");
+        f.set_modified(stamp).expect("set mtime");
+    };
+    for via_engine in [true, false] {
+        let p = tmp_path("c04-reload.htsvoice");
+        write(&p, &a);
+        let first = catch(|| jbonsai::Engine::load(&[&p]));
+        let first_v = catch(|| jbonsai::model::load_htsvoice_file(&p));
+        write(&p, &b);
+        rep.eval(1);
+        rep.cmp(1);
+        let second: Result<Option<jbonsai::model::Voice>, String> = if via_engine {
+            catch(|| jbonsai::Engine::load(&[&p]).ok().and_then(|e| e.voices.iter().next().map(|v| (**v).clone())))
+        } else {
+            catch(|| jbonsai::model::load_htsvoice_file(&p).ok())
+        };
+        let _ = std::fs::remove_file(&p);
+        let how = if via_engine { "Engine::load" } else { "load_htsvoice_file" };
+        match second {
+            Ok(Some(v)) if v == vb => {}
+            Ok(Some(v)) if v == va => rep.violation("stale-file", format!("{}: the path was overwritten with another voice (same length, same modification time) while an engine loaded from it was alive; loading it again yields the old voice", how), json!({"voice": base.describe(), "steps": ["write variant 0", "load (kept alive)", "overwrite with variant 2, same length and mtime", "load again"]})),
+            other => rep.violation("reload", format!("{}: loading the overwritten path fails or yields neither voice: {:?}", how, other.map(|o| o.is_some())), json!({"voice": base.describe()})),
+        }
+        drop(first);
+        drop(first_v);
+    }
+}
+
 /// all binary tree shapes with k internal nodes, leaves numbered in order 1..
 fn shapes(k: usize) -> Vec<TreeSpec> {
     fn build(k: usize) -> Vec<TreeSpec> {
@@ -543,7 +583,7 @@ fn construct_label(path: &[(String, bool)], questions: &HashMap<String, Vec<Stri
 
 pub fn run(tier: Tier) -> i32 {
     let rep = Report::new("C04", tier, "model_checking");
-    rep.set_rule("SCOPE: (a) bundled voice (also re-packed: data blocks in reverse order and/or separated by 0xFF filler): every model (duration, 3 streams x 5 states, 2 GV) x every label of the label space (corpus + one-group recombinations of the cover set + every distinct corpus value of every field group in 2-4 base labels + typed sweeps of every numeric field over 0..N + phoneme symbols from the voice's own patterns) vs an independent reader of the file + HTS wildcard matcher, bit-exact on means/variances/voicing weight and equal on tree/PDF index; (b) every distinct question of the bundled voice x the label space: crate matcher vs wildcard oracle; (c) generated files: all binary tree shapes with <= 3 internal nodes x 4 leaf numberings (in order, reversed, permuted, tied: one PDF reached by several branches) x quoted/unquoted x question triples from a pool of real questions (incl. the regex-fallback ones) x layout deviations (states, streams, vector length, window set, order in which the state trees are listed, numbering and listing order of the internal nodes: sequential, non-contiguous ids, ids counted backwards, yes-subtree rows first; the six orders of the spectrum options, also with a bare token or an unknown key inserted at each position; stream keys MGC/F0/BAP instead of MCP/LF0/LPF; header keys in reverse order, data blocks in reverse order and/or separated by filler bytes), one question name defined with other patterns in the log-F0 tree section; plus one large file (a 300-node tree with 301 PDFs, 300 questions, one question with 300 patterns), checked against both the independent reader and the generator's spec (sentinel floats), on a stride after a Serialize/Deserialize round trip of the loaded voice; (d) metadata, options, windows, engine defaults vs the header; distinct = (file, model, state, label); non-trivial = lookups through a tree with more than one leaf");
+    rep.set_rule("SCOPE: (a) bundled voice (also re-packed: data blocks in reverse order and/or separated by 0xFF filler): every model (duration, 3 streams x 5 states, 2 GV) x every label of the label space (corpus + one-group recombinations of the cover set + every distinct corpus value of every field group in 2-4 base labels + typed sweeps of every numeric field over 0..N + phoneme symbols from the voice's own patterns) vs an independent reader of the file + HTS wildcard matcher, bit-exact on means/variances/voicing weight and equal on tree/PDF index; (b) every distinct question of the bundled voice x the label space: crate matcher vs wildcard oracle; 8 synthetic regex-fallback questions (pairs whose pattern lists read the same once glued: {A,B} against {AB}), each object asked about the label space and about 300000 (thorough 500000) further distinct labels; (c) generated files: all binary tree shapes with <= 3 internal nodes x 4 leaf numberings (in order, reversed, permuted, tied: one PDF reached by several branches) x quoted/unquoted x question triples from a pool of real questions (incl. the regex-fallback ones) x layout deviations (states, streams, vector length, window set, order in which the state trees are listed, numbering and listing order of the internal nodes: sequential, non-contiguous ids, ids counted backwards, yes-subtree rows first; the six orders of the spectrum options, also with a bare token or an unknown key inserted at each position; stream keys MGC/F0/BAP instead of MCP/LF0/LPF; header keys in reverse order, data blocks in reverse order and/or separated by filler bytes), one question name defined with other patterns in the log-F0 tree section; plus one large file (a 300-node tree with 301 PDFs, 300 questions, one question with 300 patterns), checked against both the independent reader and the generator's spec (sentinel floats), on a stride after a Serialize/Deserialize round trip of the loaded voice; (d) metadata, options, windows, engine defaults vs the header; (e) a path overwritten with another voice of the same length and modification time while an engine loaded from it is alive, loaded again; distinct = (file, model, state, label); non-trivial = lookups through a tree with more than one leaf");
     rep.assume("labels limited to the stated label space; generated trees have at most 3 internal nodes; the label text matched by the oracle is the label's own serialisation");
     // ---------- question pool from the bundled voice ----------
     let v0b = v0_bytes();
@@ -615,6 +655,84 @@ pub fn run(tier: Tier) -> i32 {
         never_yes.fetch_add((yes == 0) as u64, Ordering::Relaxed);
     });
     rep.note("questions", json!({"distinct": qlist.len(), "regex_fallback": regex_q.load(Ordering::Relaxed), "answered_yes_somewhere": q_yes.load(Ordering::Relaxed), "never_yes_in_label_space": never_yes.load(Ordering::Relaxed)}));
+    reload_part(&rep);
+    // ---------- (b') synthetic questions that need the regex fallback ----------
+    // pairs of pattern lists that read the same once glued together ({A, B} = "A or B" against {AB} = one pattern), and
+    // one object of each asked about several hundred thousand distinct labels (anything remembered per label text, or per
+    // pattern text, must not confuse two of them)
+    {
+        let synth_q: Vec<Vec<String>> = [
+            vec!["*^s-*", "*+i=*"],
+            vec!["*^s-**+i=*"],
+            vec!["*/A:-??+*", "*-a+*"],
+            vec!["*/A:-??+**-a+*"],
+            vec!["*/A:?+1+*", "*/A:-?+2+*", "*-o+*"],
+            vec!["*/A:?+1+**/A:-?+2+*", "*-o+*"],
+            vec!["*=o/A:1?+*", "*^k-*"],
+            vec!["*=o/A:1?+*^k-*"],
+        ]
+        .iter()
+        .map(|v| v.iter().map(|x| x.to_string()).collect())
+        .collect();
+        let corpus = labels::corpus();
+        let distinct: BTreeSet<String> = corpus.iter().cloned().collect();
+        let a2max = tier.pick(7usize, 12usize);
+        let mut bulk: Vec<LabelCase> = Vec::new();
+        for l in &distinct {
+            let g = labels::groups(l);
+            for a1 in -15i32..=15 {
+                for a2 in 1..=a2max {
+                    let mut g2 = g.clone();
+                    g2[5] = format!("{}+{}+5", a1, a2);
+                    let text = labels::join(&g2);
+                    if let Ok(label) = text.parse::<jlabel::Label>() {
+                        bulk.push(LabelCase { text, label });
+                    }
+                }
+            }
+        }
+        let n_regex = AtomicU64::new(0);
+        let regex_pairs: Mutex<std::collections::BTreeMap<usize, usize>> = Mutex::new(Default::default());
+        let both: Mutex<BTreeSet<usize>> = Mutex::new(BTreeSet::new());
+        let yes_no = Mutex::new(Vec::new());
+        rep.par_for(synth_q.len(), 1, "C04 synthetic questions", |qi| {
+            let pats = &synth_q[qi];
+            let slice: Vec<&str> = pats.iter().map(|s| s.as_str()).collect();
+            let q = match catch(|| Question::parse(&slice)) {
+                Ok(Ok(q)) => q,
+                other => {
+                    rep.violation("question-parse", format!("pattern list {:?} does not parse: {:?}", pats, other.err()), json!({"patterns": pats}));
+                    return;
+                }
+            };
+            // only the regex fallback is of interest here; what the typed parser makes of a glued pattern list that happens
+            // to start and end like a single-field pattern is outside the property's domain (questions of the bundled voice)
+            if !matches!(q, Question::Regex(_)) {
+                return;
+            }
+            n_regex.fetch_add(1, Ordering::Relaxed);
+            if regex_pairs.lock().unwrap().insert(qi / 2, qi % 2).is_some() {
+                both.lock().unwrap().insert(qi / 2);
+            }
+            let mut yes = 0u64;
+            for lc in space.iter().chain(bulk.iter()) {
+                rep.cmp(1);
+                let want = any_glob(pats, &lc.text);
+                let got = q.test(&lc.label);
+                yes += want as u64;
+                if got != want {
+                    rep.violation("question-semantics", format!("a question with patterns {:?} answers {} for label {} but HTS wildcard matching says {}", pats, got, lc.text, want), json!({"patterns": pats, "label": lc.text, "asked_before": "every label of the label space and of the bulk set, in order, on the same question object"}));
+                    break;
+                }
+            }
+            rep.eval((space.len() + bulk.len()) as u64);
+            yes_no.lock().unwrap().push((yes, (space.len() + bulk.len()) as u64 - yes));
+        });
+        rep.note("synthetic_questions", json!({"questions": synth_q.len(), "regex_fallback": n_regex.load(Ordering::Relaxed), "bulk_labels": bulk.len(), "yes_no_counts": *yes_no.lock().unwrap(), "glued_pairs_both_regex": both.lock().unwrap().len()}));
+        rep.guard(n_regex.load(Ordering::Relaxed) >= 4, "fewer than 4 synthetic questions use the regex fallback");
+        rep.guard(!both.lock().unwrap().is_empty(), "no glued pair of synthetic questions where both use the regex fallback");
+        rep.guard(yes_no.lock().unwrap().iter().filter(|(y, n)| *y > 1000 && *n > 1000).count() >= 4, "synthetic questions do not split the bulk labels");
+    }
     // ---------- (a) bundled voice and one perturbed copy through the real loader ----------
     let reached = Mutex::new(BTreeMap::new());
     for k in 0..tier.pick(1usize, 2usize) {
